@@ -170,10 +170,12 @@ theorem buildStruct_size : ∀ (kvs : List (CV × CV)) (acc fs : List (Name × C
     cases k with
     | str s =>
       simp only [buildStruct] at h
-      have := ih _ _ h
-      have h2 := gszFields_aset_le s v acc
-      simp only [gszPairs]
-      omega
+      split at h
+      · cases h
+      · have := ih _ _ h
+        have h2 := gszFields_aset_le s v acc
+        simp only [gszPairs]
+        omega
     | _ => simp [buildStruct] at h
 
 /-! ### the class of programs -/
